@@ -122,7 +122,7 @@ Level(t) == CASE t.T = "BinaryExpression" -> (IF IsIsNull(t) \/ IsLike(t) THEN 4
 
 \* ---- reference serialiser ------------------------------------------------------------------------------
 \* mode: 0 = parentheses only where the ladder requires, -1 = around every operator node,
-\* k >= 1 = additionally around the k-th operator node in pre-order
+\* k >= 1 = additionally around the k-th operator node in pre-order, -2 = around every atom (operand) only
 RECURSIVE R(_, _, _, _), NOps(_)
 NOps(t) == CASE t.T \in {"Identifier", "LiteralValue"} -> 0
              [] t.T = "BinaryExpression" -> 1 + NOps(t.Left) + (IF IsIsNull(t) THEN 0 ELSE NOps(t.Right))
@@ -140,7 +140,7 @@ AtomToks(t) == IF t.T = "Identifier" THEN (IF "Table" \in DOMAIN t THEN <<t.Tabl
 \* R(t, need, mode, idx): tokens of t in a slot that requires level >= need; idx = pre-order index of t's root
 Wrap(ts) == <<"(">> \o ts \o <<")">>
 R(t, need, mode, idx) ==
-    IF t.T \in {"Identifier", "LiteralValue"} THEN AtomToks(t)
+    IF t.T \in {"Identifier", "LiteralValue"} THEN (IF mode = -2 THEN Wrap(AtomToks(t)) ELSE AtomToks(t))
     ELSE
     LET body ==
         CASE t.T = "BinaryExpression" /\ IsIsNull(t) ->
@@ -325,7 +325,7 @@ vars == <<tree, done>>
 
 Init == /\ tree \in {Fill(s, 1) : s \in Shapes(MaxOps)} /\ done = FALSE
 Run == /\ ~done /\ done' = TRUE /\ UNCHANGED tree
-       /\ Emit => PrintT(ToJson([tree |-> tree, min |-> Render(tree, 0), full |-> Render(tree, -1),
+       /\ Emit => PrintT(ToJson([tree |-> tree, min |-> Render(tree, 0), full |-> Render(tree, -1), atoms |-> Render(tree, -2),
                                  one |-> [k \in 1..NOps(tree) |-> Render(tree, k)]]))
 Spec == Init /\ [][Run]_vars
 
@@ -338,7 +338,7 @@ SlotSpec == SlotInit /\ [][SlotRun]_vars
 \* ---- theorems -------------------------------------------------------------------------------------------------
 \* C03/C06: the reference serialiser and the reference parser are inverse on every tree, for every
 \* parenthesisation that the serialiser may choose
-RoundTrip == \A mode \in (-1)..NOps(tree) : RefParse(Render(tree, mode)) = tree
+RoundTrip == \A mode \in (-2)..NOps(tree) : RefParse(Render(tree, mode)) = tree
 \* redundant parentheses never change the tree (they only ever add tokens)
 ParenOnlyAdds == Len(Render(tree, -1)) >= Len(Render(tree, 0))
 =============================================================================
